@@ -54,6 +54,17 @@ def cases(tier):
     for c in c08.cases(tier):
         if c['kind'] == 'cancel' or c['name'].startswith('k=3') or c['name'].startswith('k=2 n8'):
             out.append(dict(c, kind='c08:' + c['kind']))
+    # large batches with MIXED aggregation factors: the largest member in a later chunk / in the first chunk
+    for (k, big) in ([(257, 256), (260, 3)] if tier == 'quick' else [(257, 256), (260, 3), (260, 0), (513, 300), (513, 512)]):
+        members = [{'m': (2 if i == big else 1), 'cap': (2 if i == big else 1), 'seeded': (i % 97 == 0 and i != big)} for i in range(k)]
+        out.append({'cfg': {'scenario': 'batch', 'n': 2, 'x': 1, 'members': members, 'actions': ['RecoverAndVerify']}, 'kind': 'count', 'name': 'honest batch of %d with a larger member at %d' % (k, big)})
+    # a member whose PROOF carries another extension degree than the statements (surplus d1 element), at every position
+    for k in (2, 3):
+        for pos in range(k):
+            members = [{'m': 1, 'cap': 1} for _ in range(k)]
+            members[pos] = dict(members[pos], tamper={'op': 'tag', 'tag': 2})
+            out.append({'cfg': {'scenario': 'batch', 'n': 8, 'x': 1, 'members': members, 'actions': ['VerifyOnly', 'RecoverAndVerify', 'RecoverOnly']}, 'kind': 'refuse',
+                        'name': 'proof of member %d of %d has extension tag 2 (statements degree 1)' % (pos, k)})
     # (d) refused shapes
     two = [honest_member(0, kinds[1]), honest_member(1, kinds[2])]
     for key in ('drop_last_statement', 'drop_last_proof', 'drop_last_transcript'):
